@@ -99,6 +99,12 @@ def run(ctx):
         pts, fam = rdpfam.random_points(ctx, nmax)
         which = rng.choice(WHICH + ['rdp', 'rdp'])
         one(ctx, which, pts, rand_cfg(ctx, which, pts), fam)
+    for _ in range(6 if quick else 100):
+        pts, fam = rdpfam.bytecount_curve(rng)
+        which = rng.choice(WHICH)
+        cfg = rand_cfg(ctx, which, pts)
+        cfg.update(dist='perpendicular', int_dtype=True)
+        one(ctx, which, pts, cfg, fam)
     # long inputs (> 1024 points): the step bound is LINEAR in n, and nothing may treat long ranges differently
     for which in (['rdp', 'rdp', 'grdp'] if quick else ['rdp'] * 12 + ['grdp', 'rdp_fixed', 'mp_grdp', 'min_point_rdp'] * 4):
         pts, fam = rdpfam.long_curve(rng)
